@@ -10,9 +10,11 @@
   from the entry point `entry` (public engine call, goroutine / timer root `go:`/`timer:`, store API
   `store:`, other exported accessor called from outside `ext:`, `-` = reached from no entry point:
   constructor / start-up code) the variable's lock is held at the access (held = true) or not.
-  The variable's lock: sigCache, lastSig -> DPoVP.chainLock; UnConfirmBlocks, LastConfirm, FileQueue.Offset
-  -> ChainDatabase.RW; FileQueue.Index -> FileQueue.IndexRW; termList -> Manager.lock; evilDeputies ->
-  Manager.edLock; ForkManager.head -> accessed through sync/atomic.Value Load/Store only.
+  The variable's nominal lock (harness/hx/c19_scan.go c19Vars): sigCache -> consensus.sigCacheMu, lastSig ->
+  Confirmer.lastSigLock, FileQueue.Offset -> FileQueue.putLock (each falls back to DPoVP.chainLock / ChainDatabase.RW
+  on a tree without the dedicated mutex); UnConfirmBlocks, LastConfirm -> ChainDatabase.RW; FileQueue.Index ->
+  FileQueue.IndexRW; termList -> Manager.lock; evilDeputies -> Manager.edLock; ForkManager.head -> accessed through
+  sync/atomic.Value Load/Store only.  held = the access holds the nominal lock or the variable's guard.
 -/
 namespace LemoModel.LockFacts
 
@@ -55,29 +57,29 @@ structure Row where
   deriving DecidableEq, Repr
 
 def table : List Row := [
-  ⟨.lastConfirm, "ChainDatabase.CandidatesRanking", false, false, .engine, "DPoVP.InsertBlock"⟩,
-  ⟨.lastConfirm, "ChainDatabase.CandidatesRanking", false, false, .engine, "DPoVP.MineBlock"⟩,
-  ⟨.lastConfirm, "ChainDatabase.CandidatesRanking", false, false, .store, "store:CandidatesRanking"⟩,
-  ⟨.lastConfirm, "ChainDatabase.GetActDatabase", false, false, .engine, "DPoVP.InsertBlock"⟩,
-  ⟨.lastConfirm, "ChainDatabase.GetActDatabase", false, false, .engine, "DPoVP.MineBlock"⟩,
-  ⟨.lastConfirm, "ChainDatabase.GetActDatabase", false, false, .store, "store:GetActDatabase"⟩,
+  ⟨.lastConfirm, "ChainDatabase.CandidatesRanking", false, true, .engine, "DPoVP.InsertBlock"⟩,
+  ⟨.lastConfirm, "ChainDatabase.CandidatesRanking", false, true, .engine, "DPoVP.MineBlock"⟩,
+  ⟨.lastConfirm, "ChainDatabase.CandidatesRanking", false, true, .store, "store:CandidatesRanking"⟩,
+  ⟨.lastConfirm, "ChainDatabase.GetActDatabase", false, true, .engine, "DPoVP.InsertBlock"⟩,
+  ⟨.lastConfirm, "ChainDatabase.GetActDatabase", false, true, .engine, "DPoVP.MineBlock"⟩,
+  ⟨.lastConfirm, "ChainDatabase.GetActDatabase", false, true, .store, "store:GetActDatabase"⟩,
   ⟨.lastConfirm, "ChainDatabase.GetCandidatesTop", false, true, .engine, "DPoVP.InsertBlock"⟩,
   ⟨.lastConfirm, "ChainDatabase.GetCandidatesTop", false, true, .engine, "DPoVP.MineBlock"⟩,
   ⟨.lastConfirm, "ChainDatabase.GetCandidatesTop", false, true, .store, "store:GetCandidatesTop"⟩,
-  ⟨.lastConfirm, "ChainDatabase.GetLastConfirm", false, false, .store, "store:GetLastConfirm"⟩,
+  ⟨.lastConfirm, "ChainDatabase.GetLastConfirm", false, true, .store, "store:GetLastConfirm"⟩,
   ⟨.lastConfirm, "ChainDatabase.GetUnConfirmByHeight", false, true, .engine, "DPoVP.InsertBlock"⟩,
   ⟨.lastConfirm, "ChainDatabase.GetUnConfirmByHeight", false, true, .engine, "DPoVP.InsertConfirms"⟩,
   ⟨.lastConfirm, "ChainDatabase.GetUnConfirmByHeight", false, true, .engine, "DPoVP.MineBlock"⟩,
   ⟨.lastConfirm, "ChainDatabase.GetUnConfirmByHeight", false, true, .store, "store:GetUnConfirmByHeight"⟩,
-  ⟨.lastConfirm, "ChainDatabase.IterateUnConfirms", false, false, .engine, "DPoVP.InsertBlock"⟩,
-  ⟨.lastConfirm, "ChainDatabase.IterateUnConfirms", false, false, .engine, "DPoVP.InsertConfirms"⟩,
-  ⟨.lastConfirm, "ChainDatabase.IterateUnConfirms", false, false, .engine, "DPoVP.MineBlock"⟩,
-  ⟨.lastConfirm, "ChainDatabase.IterateUnConfirms", false, false, .go, "go:DPoVP.InsertBlock$1"⟩,
-  ⟨.lastConfirm, "ChainDatabase.IterateUnConfirms", false, false, .store, "store:IterateUnConfirms"⟩,
-  ⟨.lastConfirm, "ChainDatabase.LoadLatestBlock", false, false, .engine, "DPoVP.InsertBlock"⟩,
-  ⟨.lastConfirm, "ChainDatabase.LoadLatestBlock", false, false, .engine, "DPoVP.InsertConfirms"⟩,
-  ⟨.lastConfirm, "ChainDatabase.LoadLatestBlock", false, false, .engine, "DPoVP.MineBlock"⟩,
-  ⟨.lastConfirm, "ChainDatabase.LoadLatestBlock", false, false, .store, "store:LoadLatestBlock"⟩,
+  ⟨.lastConfirm, "ChainDatabase.IterateUnConfirms", false, true, .engine, "DPoVP.InsertBlock"⟩,
+  ⟨.lastConfirm, "ChainDatabase.IterateUnConfirms", false, true, .engine, "DPoVP.InsertConfirms"⟩,
+  ⟨.lastConfirm, "ChainDatabase.IterateUnConfirms", false, true, .engine, "DPoVP.MineBlock"⟩,
+  ⟨.lastConfirm, "ChainDatabase.IterateUnConfirms", false, true, .go, "go:DPoVP.InsertBlock$1"⟩,
+  ⟨.lastConfirm, "ChainDatabase.IterateUnConfirms", false, true, .store, "store:IterateUnConfirms"⟩,
+  ⟨.lastConfirm, "ChainDatabase.LoadLatestBlock", false, true, .engine, "DPoVP.InsertBlock"⟩,
+  ⟨.lastConfirm, "ChainDatabase.LoadLatestBlock", false, true, .engine, "DPoVP.InsertConfirms"⟩,
+  ⟨.lastConfirm, "ChainDatabase.LoadLatestBlock", false, true, .engine, "DPoVP.MineBlock"⟩,
+  ⟨.lastConfirm, "ChainDatabase.LoadLatestBlock", false, true, .store, "store:LoadLatestBlock"⟩,
   ⟨.lastConfirm, "ChainDatabase.SerializeForks", false, true, .engine, "DPoVP.InsertBlock"⟩,
   ⟨.lastConfirm, "ChainDatabase.SerializeForks", false, true, .engine, "DPoVP.InsertConfirms"⟩,
   ⟨.lastConfirm, "ChainDatabase.SerializeForks", false, true, .engine, "DPoVP.MineBlock"⟩,
@@ -99,12 +101,12 @@ def table : List Row := [
   ⟨.lastConfirm, "ChainDatabase.blockCommit", false, true, .store, "store:SetStableBlock"⟩,
   ⟨.lastConfirm, "store.NewChainDataBase", false, false, .startup, "-"⟩,
   ⟨.lastConfirm, "store.NewChainDataBase", true, false, .startup, "-"⟩,
-  ⟨.unConfirmBlocks, "ChainDatabase.CandidatesRanking", false, false, .engine, "DPoVP.InsertBlock"⟩,
-  ⟨.unConfirmBlocks, "ChainDatabase.CandidatesRanking", false, false, .engine, "DPoVP.MineBlock"⟩,
-  ⟨.unConfirmBlocks, "ChainDatabase.CandidatesRanking", false, false, .store, "store:CandidatesRanking"⟩,
-  ⟨.unConfirmBlocks, "ChainDatabase.GetActDatabase", false, false, .engine, "DPoVP.InsertBlock"⟩,
-  ⟨.unConfirmBlocks, "ChainDatabase.GetActDatabase", false, false, .engine, "DPoVP.MineBlock"⟩,
-  ⟨.unConfirmBlocks, "ChainDatabase.GetActDatabase", false, false, .store, "store:GetActDatabase"⟩,
+  ⟨.unConfirmBlocks, "ChainDatabase.CandidatesRanking", false, true, .engine, "DPoVP.InsertBlock"⟩,
+  ⟨.unConfirmBlocks, "ChainDatabase.CandidatesRanking", false, true, .engine, "DPoVP.MineBlock"⟩,
+  ⟨.unConfirmBlocks, "ChainDatabase.CandidatesRanking", false, true, .store, "store:CandidatesRanking"⟩,
+  ⟨.unConfirmBlocks, "ChainDatabase.GetActDatabase", false, true, .engine, "DPoVP.InsertBlock"⟩,
+  ⟨.unConfirmBlocks, "ChainDatabase.GetActDatabase", false, true, .engine, "DPoVP.MineBlock"⟩,
+  ⟨.unConfirmBlocks, "ChainDatabase.GetActDatabase", false, true, .store, "store:GetActDatabase"⟩,
   ⟨.unConfirmBlocks, "ChainDatabase.GetCandidatesTop", false, true, .engine, "DPoVP.InsertBlock"⟩,
   ⟨.unConfirmBlocks, "ChainDatabase.GetCandidatesTop", false, true, .engine, "DPoVP.MineBlock"⟩,
   ⟨.unConfirmBlocks, "ChainDatabase.GetCandidatesTop", false, true, .store, "store:GetCandidatesTop"⟩,
@@ -148,12 +150,12 @@ def table : List Row := [
   ⟨.unConfirmBlocks, "ChainDatabase.setConfirm", false, true, .engine, "DPoVP.InsertConfirms"⟩,
   ⟨.unConfirmBlocks, "ChainDatabase.setConfirm", false, true, .go, "go:DPoVP.batchConfirmStable"⟩,
   ⟨.unConfirmBlocks, "ChainDatabase.setConfirm", false, true, .store, "store:SetConfirms"⟩,
-  ⟨.lastSig, "Confirmer.SetLastSig", false, false, .go, "go:DPoVP.batchConfirmStable"⟩,
   ⟨.lastSig, "Confirmer.SetLastSig", false, true, .engine, "DPoVP.InsertBlock"⟩,
   ⟨.lastSig, "Confirmer.SetLastSig", false, true, .engine, "DPoVP.MineBlock"⟩,
-  ⟨.lastSig, "Confirmer.SetLastSig", true, false, .go, "go:DPoVP.batchConfirmStable"⟩,
+  ⟨.lastSig, "Confirmer.SetLastSig", false, true, .go, "go:DPoVP.batchConfirmStable"⟩,
   ⟨.lastSig, "Confirmer.SetLastSig", true, true, .engine, "DPoVP.InsertBlock"⟩,
   ⟨.lastSig, "Confirmer.SetLastSig", true, true, .engine, "DPoVP.MineBlock"⟩,
+  ⟨.lastSig, "Confirmer.SetLastSig", true, true, .go, "go:DPoVP.batchConfirmStable"⟩,
   ⟨.lastSig, "Confirmer.needConfirm", false, true, .engine, "DPoVP.InsertBlock"⟩,
   ⟨.lastSig, "consensus.NewConfirmer", true, false, .startup, "-"⟩,
   ⟨.index, "FileQueue.delIndex", false, true, .go, "go:FileQueue.start$1"⟩,
@@ -201,45 +203,45 @@ def table : List Row := [
   ⟨.index, "FileQueue.setIndex", true, true, .store, "store:SetConfirms"⟩,
   ⟨.index, "FileQueue.setIndex", true, true, .store, "store:SetContractCode"⟩,
   ⟨.index, "FileQueue.setIndex", true, true, .store, "store:SetStableBlock"⟩,
-  ⟨.offset, "FileQueue.Put", false, false, .engine, "DPoVP.InsertBlock"⟩,
-  ⟨.offset, "FileQueue.Put", false, false, .engine, "DPoVP.MineBlock"⟩,
-  ⟨.offset, "FileQueue.Put", false, false, .go, "go:SyncFileDB.start"⟩,
-  ⟨.offset, "FileQueue.Put", false, false, .store, "store:SetContractCode"⟩,
+  ⟨.offset, "FileQueue.Put", false, true, .engine, "DPoVP.InsertBlock"⟩,
   ⟨.offset, "FileQueue.Put", false, true, .engine, "DPoVP.InsertConfirms"⟩,
+  ⟨.offset, "FileQueue.Put", false, true, .engine, "DPoVP.MineBlock"⟩,
   ⟨.offset, "FileQueue.Put", false, true, .go, "go:DPoVP.batchConfirmStable"⟩,
+  ⟨.offset, "FileQueue.Put", false, true, .go, "go:SyncFileDB.start"⟩,
   ⟨.offset, "FileQueue.Put", false, true, .store, "store:SetConfirms"⟩,
-  ⟨.offset, "FileQueue.Put", true, false, .engine, "DPoVP.InsertBlock"⟩,
-  ⟨.offset, "FileQueue.Put", true, false, .engine, "DPoVP.MineBlock"⟩,
-  ⟨.offset, "FileQueue.Put", true, false, .go, "go:SyncFileDB.start"⟩,
-  ⟨.offset, "FileQueue.Put", true, false, .store, "store:SetContractCode"⟩,
+  ⟨.offset, "FileQueue.Put", false, true, .store, "store:SetContractCode"⟩,
+  ⟨.offset, "FileQueue.Put", true, true, .engine, "DPoVP.InsertBlock"⟩,
   ⟨.offset, "FileQueue.Put", true, true, .engine, "DPoVP.InsertConfirms"⟩,
+  ⟨.offset, "FileQueue.Put", true, true, .engine, "DPoVP.MineBlock"⟩,
   ⟨.offset, "FileQueue.Put", true, true, .go, "go:DPoVP.batchConfirmStable"⟩,
+  ⟨.offset, "FileQueue.Put", true, true, .go, "go:SyncFileDB.start"⟩,
   ⟨.offset, "FileQueue.Put", true, true, .store, "store:SetConfirms"⟩,
-  ⟨.offset, "FileQueue.PutBatch", false, false, .engine, "DPoVP.InsertBlock"⟩,
-  ⟨.offset, "FileQueue.PutBatch", false, false, .engine, "DPoVP.MineBlock"⟩,
+  ⟨.offset, "FileQueue.Put", true, true, .store, "store:SetContractCode"⟩,
+  ⟨.offset, "FileQueue.PutBatch", false, true, .engine, "DPoVP.InsertBlock"⟩,
   ⟨.offset, "FileQueue.PutBatch", false, true, .engine, "DPoVP.InsertConfirms"⟩,
+  ⟨.offset, "FileQueue.PutBatch", false, true, .engine, "DPoVP.MineBlock"⟩,
   ⟨.offset, "FileQueue.PutBatch", false, true, .store, "store:SetStableBlock"⟩,
   ⟨.offset, "FileQueue.checkFile", false, false, .startup, "-"⟩,
   ⟨.offset, "FileQueue.checkFile", true, false, .startup, "-"⟩,
-  ⟨.offset, "FileQueue.deliver", false, false, .engine, "DPoVP.InsertBlock"⟩,
-  ⟨.offset, "FileQueue.deliver", false, false, .engine, "DPoVP.MineBlock"⟩,
-  ⟨.offset, "FileQueue.deliver", false, false, .go, "go:SyncFileDB.start"⟩,
-  ⟨.offset, "FileQueue.deliver", false, false, .store, "store:SetContractCode"⟩,
+  ⟨.offset, "FileQueue.deliver", false, true, .engine, "DPoVP.InsertBlock"⟩,
   ⟨.offset, "FileQueue.deliver", false, true, .engine, "DPoVP.InsertConfirms"⟩,
+  ⟨.offset, "FileQueue.deliver", false, true, .engine, "DPoVP.MineBlock"⟩,
   ⟨.offset, "FileQueue.deliver", false, true, .go, "go:DPoVP.batchConfirmStable"⟩,
+  ⟨.offset, "FileQueue.deliver", false, true, .go, "go:SyncFileDB.start"⟩,
   ⟨.offset, "FileQueue.deliver", false, true, .store, "store:SetConfirms"⟩,
+  ⟨.offset, "FileQueue.deliver", false, true, .store, "store:SetContractCode"⟩,
   ⟨.offset, "FileQueue.deliver", false, true, .store, "store:SetStableBlock"⟩,
-  ⟨.offset, "FileQueue.deliverBatch", true, false, .engine, "DPoVP.InsertBlock"⟩,
-  ⟨.offset, "FileQueue.deliverBatch", true, false, .engine, "DPoVP.MineBlock"⟩,
+  ⟨.offset, "FileQueue.deliverBatch", true, true, .engine, "DPoVP.InsertBlock"⟩,
   ⟨.offset, "FileQueue.deliverBatch", true, true, .engine, "DPoVP.InsertConfirms"⟩,
+  ⟨.offset, "FileQueue.deliverBatch", true, true, .engine, "DPoVP.MineBlock"⟩,
   ⟨.offset, "FileQueue.deliverBatch", true, true, .store, "store:SetStableBlock"⟩,
-  ⟨.offset, "FileQueue.emptyFile", true, false, .engine, "DPoVP.InsertBlock"⟩,
-  ⟨.offset, "FileQueue.emptyFile", true, false, .engine, "DPoVP.MineBlock"⟩,
-  ⟨.offset, "FileQueue.emptyFile", true, false, .go, "go:SyncFileDB.start"⟩,
-  ⟨.offset, "FileQueue.emptyFile", true, false, .store, "store:SetContractCode"⟩,
+  ⟨.offset, "FileQueue.emptyFile", true, true, .engine, "DPoVP.InsertBlock"⟩,
   ⟨.offset, "FileQueue.emptyFile", true, true, .engine, "DPoVP.InsertConfirms"⟩,
+  ⟨.offset, "FileQueue.emptyFile", true, true, .engine, "DPoVP.MineBlock"⟩,
   ⟨.offset, "FileQueue.emptyFile", true, true, .go, "go:DPoVP.batchConfirmStable"⟩,
+  ⟨.offset, "FileQueue.emptyFile", true, true, .go, "go:SyncFileDB.start"⟩,
   ⟨.offset, "FileQueue.emptyFile", true, true, .store, "store:SetConfirms"⟩,
+  ⟨.offset, "FileQueue.emptyFile", true, true, .store, "store:SetContractCode"⟩,
   ⟨.offset, "FileQueue.emptyFile", true, true, .store, "store:SetStableBlock"⟩,
   ⟨.offset, "FileQueue.scanFile", false, false, .startup, "-"⟩,
   ⟨.offset, "FileQueue.scanFile", true, false, .startup, "-"⟩,
@@ -263,25 +265,25 @@ def table : List Row := [
   ⟨.termList, "Manager.SaveSnapshot", true, true, .engine, "DPoVP.InsertBlock"⟩,
   ⟨.termList, "Manager.SaveSnapshot", true, true, .engine, "DPoVP.InsertConfirms"⟩,
   ⟨.termList, "Manager.SaveSnapshot", true, true, .engine, "DPoVP.MineBlock"⟩,
-  ⟨.sigCache, "consensus.SignBlock", false, false, .ext, "ext:consensus.SignBlock"⟩,
-  ⟨.sigCache, "consensus.SignBlock", false, false, .go, "go:DPoVP.batchConfirmStable"⟩,
   ⟨.sigCache, "consensus.SignBlock", false, true, .engine, "DPoVP.InsertBlock"⟩,
   ⟨.sigCache, "consensus.SignBlock", false, true, .engine, "DPoVP.MineBlock"⟩,
-  ⟨.sigCache, "consensus.SignBlock", true, false, .ext, "ext:consensus.SignBlock"⟩,
-  ⟨.sigCache, "consensus.SignBlock", true, false, .go, "go:DPoVP.batchConfirmStable"⟩,
+  ⟨.sigCache, "consensus.SignBlock", false, true, .ext, "ext:consensus.SignBlock"⟩,
+  ⟨.sigCache, "consensus.SignBlock", false, true, .go, "go:DPoVP.batchConfirmStable"⟩,
   ⟨.sigCache, "consensus.SignBlock", true, true, .engine, "DPoVP.InsertBlock"⟩,
-  ⟨.sigCache, "consensus.SignBlock", true, true, .engine, "DPoVP.MineBlock"⟩
+  ⟨.sigCache, "consensus.SignBlock", true, true, .engine, "DPoVP.MineBlock"⟩,
+  ⟨.sigCache, "consensus.SignBlock", true, true, .ext, "ext:consensus.SignBlock"⟩,
+  ⟨.sigCache, "consensus.SignBlock", true, true, .go, "go:DPoVP.batchConfirmStable"⟩
 ]
 
 /-- the guard of each variable: a lock held at EVERY access from a real entry point ("atomic": only
     atomic.Value Load/Store; "none": no such lock) -/
 def guards : List (Var × String) := [
-  (.sigCache, "none"),
-  (.lastSig, "none"),
+  (.sigCache, "consensus.sigCacheMu"),
+  (.lastSig, "Confirmer.lastSigLock"),
   (.head, "atomic"),
-  (.unConfirmBlocks, "none"),
-  (.lastConfirm, "none"),
-  (.offset, "none"),
+  (.unConfirmBlocks, "ChainDatabase.RW"),
+  (.lastConfirm, "ChainDatabase.RW"),
+  (.offset, "FileQueue.putLock"),
   (.index, "FileQueue.IndexRW"),
   (.termList, "Manager.lock"),
   (.evilDeputies, "Manager.edLock")
